@@ -168,7 +168,9 @@ class AbstractDomain:
             if not prow_dim.same(rows):
                 eq = prow_dim.size_term() == rows.size_term()
                 if not I.ctx.entails(eq):
-                    raise Unsupported(f"abstract _contains: params rows {prow_dim} differ from point rows {rows}")
+                    # requires of the operand contract: one parameter row per point
+                    I.ctx.oblige(f"pre@{I.ctx.loc}:{self.name}._contains-one-parameter-row-per-point", eq, (), "pre")
+                    I.ctx.assume(eq)
         self.calls.append({"kind": "contains", "points": points, "params": params})
 
         def fn(idx):
